@@ -113,6 +113,17 @@ SUITES = {
         trace=dict(module="Trace_EVMCalls", cfg_in="Trace_EVMCalls.cfg.in"),
         props=["C19"],
     ),
+    "access": dict(
+        # the matrix is finite: TLC enumerates every (actor type, method number / variant, caller class)
+        # cell and the driver executes each of them in both parameter modes on two fixture states;
+        # thorough adds a third seed-varied pass (different account keys / ids)
+        mc=[dict(module="MC_Access", cfg="MC_Access.cfg", timeout=tiered(900, 1800), workers=2)],
+        driver="access",
+        driver_args=lambda tier: (["--fixtures", "A,B", "--modes", "default,success"] if tier == "quick" else
+                                  ["--fixtures", "A,B", "--modes", "default,success", "--reseed", 2]),
+        trace=dict(module="Trace_Access", cfg_in="Trace_Access.cfg.in", workers=1, timeout=3600),
+        props=["C11"],
+    ),
 }
 
 # property -> suites whose traces carry formulas tagged with that property
@@ -133,11 +144,12 @@ PROPS = {
     "C17": dict(suites=["evm17"], title="EVM instructions compute what the Ethereum specification says"),
     "C18": dict(suites=["evm18"], title="EVM execution is total, bounded and respects read-only mode"),
     "C19": dict(suites=["evmcalls"], title="EVM contract state stays coherent across nested, re-entrant and reverted calls"),
+    "C11": dict(suites=["access"], title="Privileged methods are callable only by their designated callers"),
 }
 
 NOT_BUILT = "check not built yet in this round (work in progress; see DESIGN.md build order)"
 NOT_APPLICABLE = {p: NOT_BUILT for p in
-                  ["C10", "C11",
+                  ["C10",
                    "C14", "C15"]}
 
 _MKT = ("Bounded exhaustive TLC model checking of spec/Market.tla with the REAL protocol constants (180-day minimum duration, 30-day cron interval; time jumps only between deal boundaries and scheduled cron epochs, so the state space is small and every behaviour is replayable 1:1): every interleaving of deposits, withdrawals, batch publication with invalid entries, both activation paths, settlement, sector termination and the per-epoch cron over <= 2 deals; formulas as invariants over state + event-derived ghosts and as action properties. Conformance: a transition tour of the model, TLC simulation behaviours and guided random schedules run on the real market actor with real miner actors as providers; every recorded step validated by TLC. ")
@@ -158,6 +170,7 @@ LEVEL_TEXT = {
     "C12": "Bounded exhaustive TLC model checking of spec/Multisig.tla (every interleaving of propose/approve/cancel by signers and outsiders with admin transactions and re-entrant self-calls executed inside the approving step, within small constants) + conformance: TLC-exported behaviours and random schedules run on the real multisig actor (created through init, inner sends really executed) and each recorded step is validated by TLC against the C12 formulas and the spec's transition function.",
     "C16": "Bounded exhaustive TLC model checking of spec/Paych.tla (all voucher/settle/collect interleavings within small constants, C16 formulas as invariants and action properties) + conformance: TLC-exported behaviours and random schedules are executed on the real paych actor and every recorded step is validated by TLC against the same formulas and the spec's transition relation.",
     "C20": "Bounded exhaustive TLC model checking of spec/Init.tla (init.Exec/Exec4 creator-code matrix, EAM CreateExternal, CREATE/CREATE2 issued by contracts running nested programs with reverting frames, failing constructors, self-destruct and resurrection, auto-created accounts and placeholders, deployments landing on placeholders; the C20 formulas as action properties over (pre-state, call + observed creations, post-state), Keccak/RLP as an injective uninterpreted function) + conformance: a transition tour of the model, TLC simulation behaviours and guided random schedules run on the real init, EAM, EVM, multisig, paych, power/miner actors (contracts are real EVM bytecode interpreting the programs); every recorded step validated by TLC; the literal CREATE/CREATE2 address bytes are re-computed by the harness with its own RLP + Keccak-256 (formula AddrFormula).",
+    "C11": "spec/Access.tla states the INTENDED caller-permission table of all 16 built-in actor types (every dispatched method number, exported FRC-42 aliases as separate rows, parameter variants where the designated set depends on what the parameters name, deprecated / never-assigned numbers and the FRC-42 numbers internal-only methods would get if exported) over 29 caller classes (9 singletons, a miner, accounts in every role of the fixture - owner, worker, control, beneficiary, nominee, pending owner, signer, proposer, payer, payee, verifier, client, operator -, an outside account, an EthAccount, an EVM contract, non-built-in code, the root multisig, the actor itself), written from the method documentation and FIPs. TLC checks the table-level invariants (internal numbers never admit contracts or unknown code outside EAM/EVM, constructors only init/system, protocol-plumbing methods admit exactly one class, undefined numbers admit nobody, aliases agree) and enumerates the whole finite matrix, exporting every cell. Conformance, exhaustive over the matrix: every cell is executed on the real actors from a fresh copy of a rich fixture world (two fixture states, two parameter modes: well-typed defaults, and parameters for which the designated caller succeeds) with the caller class impersonated as the message sender; per cell TLC evaluates NonDesignatedRejected (rejected and state tree unchanged), DesignatedAccepted (never refused by a caller check; exit 0 with success parameters), RestrictiveCheckAgrees, ValidatedBeforeEffects, CompletedImpliesValidated, InternalNotForEvm, UndefinedRejected, NoPanic.",
     "C19": "Bounded exhaustive TLC model checking of spec/EVMCalls.tla, the ideal semantics of a system of script-running contracts (per-contract storage, transient storage per message, balances, tombstones, journalled revert, DELEGATECALL / STATICCALL contexts, CREATE/CREATE2 incl. resurrection, SELFDESTRUCT): every script of a generated alphabet (write/call/read patterns over all call kinds and targets, nesting 3 with re-entrancy, reverting / aborting / self-destructing callees) from two initial worlds, with the semantics' meta-properties (a reverted or aborted sub-call leaves the world unchanged, static calls have no effect, transient storage is empty at message start, delegate code runs on the caller's storage, destroyed contracts are empty) as invariants + conformance: the transition tour, TLC simulation behaviours and guided random scripts are compiled to call data for a script-interpreter contract (real EVM bytecode deployed through the real EAM) and run on the real EVM actor; every value read inside the call tree, the outcome, every contract's storage (GetStorageAt), code (GetBytecode), balances, tombstones and effective events are validated by TLC against the ideal semantics (formulas ReadsCoherent, TransientScope, DelegateContext, StorageCoherent, BalancesCoherent, LogsCoherent, TombstoneCoherent, RevertLeavesNoTrace, StaticNoEffect, DestroyedIsEmpty, TombstoneLifecycle).",
 }
 LEVEL_NOTE = {
